@@ -370,6 +370,7 @@ impl World {
             DeployProg::Probe => pg::probe_initcode(),
             DeployProg::Empty => vec![],
             DeployProg::Reverting => vec![0x5f, 0x5f, 0xfd],
+            DeployProg::NumberCode => pg::number_initcode(),
             DeployProg::Raw(h) => hex::decode(h).unwrap_or_default(),
         }
     }
@@ -403,6 +404,7 @@ impl World {
             }
             Cd::Multi(v) => pg::cd_multi(&v.iter().map(|c| self.cd_bytes(c)).collect::<Vec<_>>()),
             Cd::Burn(n) => pg::cd_burn(*n),
+            Cd::BlockInfo => pg::cd_blockinfo(),
             Cd::Probe(d) => pg::cd_probe(d),
             Cd::Ctl { ticker, call } => self.erc_ctl_bytes(*ticker, call),
             Cd::Tok(call) => self.erc_tok_bytes(call),
